@@ -93,6 +93,8 @@ pub struct UdpIn {
     pub src: SocketAddr,
     pub dst: SocketAddr,
     pub data: Vec<u8>,
+    /// simulation metadata: which socket of the system under test sent this
+    pub from_serial: u64,
 }
 
 #[derive(Clone, Copy, Debug, PartialEq, Eq)]
@@ -456,6 +458,17 @@ impl Kernel {
     /// A UDP datagram arrives at the erbium host from the network.
     /// Returns false if no socket takes it (the host would answer with ICMP).
     pub fn inject_udp(&self, dst: SocketAddr, src: SocketAddr, ifidx: u32, data: &[u8]) -> bool {
+        self.inject_udp_serial(dst, src, ifidx, data).is_some()
+    }
+
+    /// Like `inject_udp`; tells which socket (by serial) the datagram was queued on.
+    pub fn inject_udp_serial(&self, dst: SocketAddr, src: SocketAddr, ifidx: u32, data: &[u8]) -> Option<u64> {
+        let got = std::cell::Cell::new(0u64);
+        let ok = self.inject_udp_inner(dst, src, ifidx, data, &got);
+        if ok { Some(got.get()) } else { None }
+    }
+
+    fn inject_udp_inner(&self, dst: SocketAddr, src: SocketAddr, ifidx: u32, data: &[u8], got: &std::cell::Cell<u64>) -> bool {
         self.with(|k| {
             let now = k.now_ns();
             k.log.ev(now, "in.udp", dst.port() as u64, src.port() as u64, data);
@@ -497,6 +510,7 @@ impl Kernel {
                 None => Ipv4Addr::UNSPECIFIED,
             };
             let s = k.socks.get_mut(&fd).unwrap();
+            got.set(s.serial);
             if s.rxq.len() >= RXQ_MAX {
                 k.stat("in.udp.rxq_full");
                 return true;
@@ -1394,7 +1408,7 @@ impl SimKernel for KHandle {
         enum Next {
             Done(usize),
             Stream(usize, usize),
-            Udp { seq: u64, src: SocketAddr, dst: SocketAddr },
+            Udp { seq: u64, src: SocketAddr, dst: SocketAddr, from_serial: u64 },
         }
         let next = self.k().with(|k| {
             let (kind, domain, local, peer, proto) = {
@@ -1602,7 +1616,7 @@ impl SimKernel for KHandle {
                     let seq = k.record_out(fd, OutKind::Udp { src, dst: dst_real, data: buf.to_vec() }, err);
                     match err {
                         Some(e) => Err(e),
-                        None => Ok(Next::Udp { seq, src, dst: dst_real }),
+                        None => Ok(Next::Udp { seq, src, dst: dst_real, from_serial: k.socks.get(&fd).map(|s| s.serial).unwrap_or(0) }),
                     }
                 }
             }
@@ -1620,7 +1634,7 @@ impl SimKernel for KHandle {
                 });
                 Ok(n)
             }
-            Next::Udp { seq, src, dst } => {
+            Next::Udp { seq, src, dst, from_serial } => {
                 /* hand the datagram to the network */
                 let deliveries = kh.with(|k| {
                     let mut v = vec![];
@@ -1663,7 +1677,7 @@ impl SimKernel for KHandle {
                                 kk.with(|k| {
                                     let at_ns = k.now_ns();
                                     if let Some(tx) = k.udp_eps.get(&(dst.ip(), dst.port())) {
-                                        let _ = tx.send(UdpIn { at_ns, src, dst, data });
+                                        let _ = tx.send(UdpIn { at_ns, src, dst, data, from_serial });
                                     }
                                 })
                             });
